@@ -1959,20 +1959,29 @@ static void compile_expr(CG *cg, ASTNode *node) {
 
     case AST_IF: {
         /* If used as expression (returns value from branches) */
+        ASTNode *then_branch = node->as.if_stmt.then_branch;
+        ASTNode *else_branch = node->as.if_stmt.else_branch;
+        if (if_branch_value(then_branch) && if_branch_value(else_branch)) {
+            /* `{ expr }` branches: compile the expression, so its value stays
+             * on the stack (a block is compiled as statements and leaves none) */
+            then_branch = if_branch_value(then_branch);
+            else_branch = if_branch_value(else_branch);
+        }
+
         compile_expr(cg, node->as.if_stmt.condition);
         uint32_t jf_instr = cg->code_size;
         uint32_t jf_off = emit_op(cg, OP_JMP_FALSE, (int32_t)0);
         uint32_t jf_patch = jf_off + 1;
 
-        compile_expr(cg, node->as.if_stmt.then_branch);
+        compile_expr(cg, then_branch);
 
-        if (node->as.if_stmt.else_branch) {
+        if (else_branch) {
             uint32_t je_instr = cg->code_size;
             uint32_t je_off = emit_op(cg, OP_JMP, (int32_t)0);
             uint32_t je_patch = je_off + 1;
 
             patch_jump(cg, jf_patch, jf_instr, cg->code_size);
-            compile_expr(cg, node->as.if_stmt.else_branch);
+            compile_expr(cg, else_branch);
             patch_jump(cg, je_patch, je_instr, cg->code_size);
         } else {
             patch_jump(cg, jf_patch, jf_instr, cg->code_size);
